@@ -6,6 +6,7 @@ import (
 	"time"
 
 	"github.com/form3tech-oss/f1/v2/internal/trigger/api"
+	"github.com/form3tech-oss/f1/v2/internal/trigger/constant"
 	"github.com/form3tech-oss/f1/v2/internal/trigger/file"
 )
 
@@ -61,6 +62,36 @@ func runC13(c *ctx, jScaled int, shape string, rmax, n int) (tr c13trace) {
 		out := fn(now)
 		tr.Ev = append(tr.Ev, [2]int{cur, out})
 		now = now.Add(time.Second)
+	}
+	return tr
+}
+
+// the jittered rate spread over 100 ms sub-ticks by --distribution random|regular (the way `constant -r 2/s -j 75
+// --distribution random` runs): per tick of the configured interval the sub-ticks add up to the jittered value, and
+// the jitter (which carries a remainder from call to call) is asked once per tick - so the per-tick sums are a jitter
+// trace like any other
+func runC13Dist(dist string, jScaled, rate, n int) (tr c13trace) {
+	tr = c13trace{J: jScaled, Shape: "constant-via-" + dist, Ev: make([][2]int, 0, n)}
+	defer func() {
+		if r := recover(); r != nil {
+			tr.Panicked = true
+			tr.Err = fmt.Sprint(r)
+		}
+	}()
+	rates, err := constant.CalculateConstantRate(float64(jScaled)/100.0, fmt.Sprintf("%d/1s", rate), dist)
+	if err != nil || rates.IterationDuration <= 0 {
+		tr.Panicked, tr.Err = true, fmt.Sprint("rate not accepted: ", err)
+		return tr
+	}
+	sub := int(time.Second / rates.IterationDuration)
+	now := time.Unix(1_700_000_000, 0)
+	for i := 0; i < n; i++ {
+		sum := 0
+		for q := 0; q < sub; q++ {
+			sum += rates.Rate(now)
+			now = now.Add(rates.IterationDuration)
+		}
+		tr.Ev = append(tr.Ev, [2]int{rate, sum})
 	}
 	return tr
 }
@@ -146,6 +177,11 @@ func init() {
 					}
 					w.write(runC13(c, j, sh, rmax, nn))
 				}
+			}
+		}
+		for _, dist := range []string{"random", "regular"} {
+			for _, jr := range [][2]int{{7500, 2}, {5000, 3}, {9000, 1}, {2000, 40}} {
+				w.write(runC13Dist(dist, jr[0], jr[1], 600))
 			}
 		}
 		for _, ds := range [][2]int{{50, 0}, {80, 0}, {50, 20}, {0, 30}, {-1, 0}, {40, -1}, {-1, -1}, {0, 0}, {20, 50}} {
